@@ -104,6 +104,26 @@ theorem fmin_val {fl : ℝ → ℝ} (a b : RR fl) : (fmin a b).val = min a.val b
   · have h' : a.val ≤ b.val := not_lt.mp h
     simp [h, h', min_eq_left h']
 
+/-- the lower clamp of the effective degrees of freedom on the real carriers: the larger of the computed value
+    and the (rounded) bound `min(na, nb) - 1` -/
+theorem Unpaired.clampDof_val {fl : ℝ → ℝ} (d na nb : RR fl) :
+    (Unpaired.clampDof d na nb).val = max d.val (fl (min na.val nb.val - 1)) := by
+  unfold Unpaired.clampDof
+  have hm : (NumOps.sub (fmin na nb) (NumOps.one : RR fl)).val = fl (min na.val nb.val - 1) := by
+    simp [fmin_val]
+  by_cases h : d.val < fl (min na.val nb.val - 1)
+  · have : lt d (NumOps.sub (fmin na nb) (NumOps.one : RR fl)) = true := by
+      rw [RR.lt_iff, hm]; exact h
+    simp only [this, if_true, hm, max_eq_right h.le]
+  · have : lt d (NumOps.sub (fmin na nb) (NumOps.one : RR fl)) = false := by
+      rw [Bool.eq_false_iff, Ne, RR.lt_iff, hm]; exact h
+    simp only [this, Bool.false_eq_true, if_false, max_eq_left (not_lt.mp h)]
+
+theorem Unpaired.clampDof_swap {fl : ℝ → ℝ} (d na nb : RR fl) :
+    Unpaired.clampDof d nb na = Unpaired.clampDof d na nb := by
+  apply RR.ext'
+  rw [Unpaired.clampDof_val, Unpaired.clampDof_val, min_comm]
+
 /-- in exact arithmetic the clamp of `ci_wilson` is the identity on bounds that are proportions -/
 theorem Proportion.finishWilson_eq_finish (conf : Confidence Rex) (m s : Rex)
     (hlo : 0 ≤ m.val - s.val) (hhi : m.val + s.val ≤ 1) :
